@@ -70,6 +70,11 @@ type decoy struct {
 	take func()
 }
 
+// decoyHolder is embedded by the container runners.
+type decoyHolder struct{ d decoySet }
+
+func (h *decoyHolder) Decoys() *decoySet { return &h.d }
+
 type decoySet struct {
 	mk   func() decoy
 	live []decoy
